@@ -371,7 +371,10 @@ def run(rep, tier, seed):
     rep.extra["hash_seeds"] = seeds
     rep.scope("cross-process")["cases"] = len(idx)
     rep.scope("cross-process")["executions"] = nproc
-    rep.confirm = replay
+    # C10 is about reproducibility itself: a difference between two runs that
+    # does not recur on a third run is still (all the more) a violation, so
+    # violations are reported without the usual re-execution gate
+    rep.confirm = None
 
 
 def replay(payload):
